@@ -6,6 +6,7 @@ import CoercionModel.Model.Builder
 import CoercionModel.Model.Validate
 import CoercionModel.Model.Engine
 import CoercionModel.Model.Startup
+import CoercionModel.Model.Search
 open Lean
 namespace Coercion
 
@@ -92,5 +93,8 @@ instance : ToJson Engine.Obj where
 
 deriving instance FromJson for Startup.Stored
 deriving instance ToJson for Startup.Fate
+
+deriving instance FromJson for Search.Row
+deriving instance FromJson for Search.Filters
 
 end Coercion
